@@ -160,7 +160,7 @@ def small_streams(rng, k, m, d, lat_choices):
     return {'k': k, 'dmax': d, 'cap': L // 2, 'events': events, 'mode': 'read', 'sizes': [d], 'lats': lat_choices}
 
 
-def command_run(rng, kind, conc):
+def command_run(rng, kind, conc, local=False, limit=64 * 1024):
     """a whole snapshot / restore with rate_limit under the virtual clock: deliveries observed at the backend"""
     from replicat import utils
     from .. import membackend
@@ -173,11 +173,16 @@ def command_run(rng, kind, conc):
         sleep = staticmethod(vt.sleep)
     events = []
     elock = threading.Lock()
-    limit = 64 * 1024          # bytes per second
     scale = L // limit         # ticks per byte at this limit: work in ticks of 2^-20 s, one byte = scale ticks
     with harness.scratch() as d:
         store = membackend.Store()
-        w = harness.World(store=store, concurrent=conc)
+        if local:
+            # the real LOCAL backend (its own copy loops decide the size of the pieces that pass through the limiter)
+            from replicat.backends.local import Local
+            (d / 'lrepo').mkdir()
+            w = harness.World(store=store, concurrent=conc, backend_factory=lambda **kw: Local(str(d / 'lrepo')))
+        else:
+            w = harness.World(store=store, concurrent=conc)
         w.init('a', b'pw', harness.settings(encrypted=True, min_length=2048, max_length=8192))
         data = {('f%d.bin' % i): rng.randbytes(rng.randrange(20_000, 60_000)) for i in range(3)}
         harness.write_tree(d / 'src', data)
@@ -225,7 +230,11 @@ def command_run(rng, kind, conc):
             self._read_lock, self._write_lock = vt.lock(), vt.lock()
         utils.RateLimitedIO.__init__ = init
         utils.time = T
-        membackend.MemBackend.upload_stream, membackend.MemBackend.download_stream = upload_stream, download_stream
+        Target = membackend.MemBackend
+        if local:
+            from replicat.backends.local import Local as Target
+            orig_up, orig_down = Target.upload_stream, Target.download_stream
+        Target.upload_stream, Target.download_stream = upload_stream, download_stream
         try:
             box = {}
 
@@ -248,7 +257,7 @@ def command_run(rng, kind, conc):
         finally:
             utils.time = real_time
             utils.RateLimitedIO.__init__ = orig_init
-            membackend.MemBackend.upload_stream, membackend.MemBackend.download_stream = orig_up, orig_down
+            Target.upload_stream, Target.download_stream = orig_up, orig_down
     events.sort(key=lambda e: e['t'])
     chunk = max(limit // (conc * 16), 1)
     events.append({'a': 'done', 'intact': bool(ok), 'seekok': True})
@@ -293,6 +302,10 @@ def main(run):
     # recorded finding n, exercised on every run: several streams whose underlying I/O is as slow as their share
     traces.append(scenario(rng, 4, 40, [quarter], [0.25], 'read'))
     run.case(('limiter', 'finding-n'))
+    # the same through the real local backend, at a limit below twice the chunk size (a chunk is more than half a second's worth)
+    for kind, conc in ([('snapshot', 2)] if quick else [('snapshot', 1), ('snapshot', 3), ('restore', 2)]):
+        traces.append(command_run(rng, kind, conc, local=True, limit=8 * 1024))
+        run.case(('command-local-backend', kind, conc))
     for i, (kind, conc) in enumerate([('snapshot', 2), ('restore', 2)] if quick else [('snapshot', 1), ('snapshot', 3), ('restore', 1), ('restore', 2), ('snapshot', 5)]):
         traces.append(command_run(rng, kind, conc))
         run.case(('command', kind, conc))
